@@ -69,6 +69,14 @@ def node(w, hist, cfg, res):
         left = open_tmpstores()
         if left:
             viol.append(('clean', 'tmpstore-file-open', dict(files=left)))
+        # ... nor a directory with the savepoints' blob files
+        bd = getattr(w.storage, 'blob_dir', None)
+        if bd:
+            tmpd = os.path.join(bd, 'tmp')
+            stray = sorted(os.listdir(tmpd)) if os.path.isdir(tmpd) else []
+            if stray:
+                viol.append(('clean', 'blob-temporary-files-left',
+                             dict(left=stray[:4])))
     return n, any(o == 'rollback' for o in w.outcomes), viol
 
 
@@ -91,7 +99,13 @@ def run(rep, tier, seed, workers):
             dict(prop='C12', kind='F', d=depth - 1),
             # blob writes: an existing blob next to a plain and a new object
             dict(prop='C12', kind='Fb', d=depth - 1,
-                 objects=('a', 'n', 'B'), kinds=KINDS + ['bwrite'])]
+                 objects=('a', 'n', 'B'), kinds=KINDS + ['bwrite']),
+            # ... and a commit that fails on a conflict after savepoints
+            # that hold a blob
+            dict(prop='C12', kind='Fb', d=depth - 1, rival=True,
+                 objects=('a', 'B'),
+                 kinds=['mod', 'bwrite', 'savepoint', 'rollback', 'rival',
+                        'commit', 'abort'])]
     # a commit that fails (conflict with a rival, another participant's
     # vote) after savepoints: two existing objects
     plan.append(dict(prop='C12', kind='M', d=depth - 1, rival=True,
@@ -108,6 +122,7 @@ def run(rep, tier, seed, workers):
         rep.bounds['%s%s depth' % (cfg['kind'], '/3obj' if cfg.get(
             'max_handles') else '/failing commits' if cfg.get('rival')
             else '')] = d
+
     rep.cov['states'] = max(states, 1)
     rep.assumptions = [
         'the in-memory attributes of an object that belongs to no database '
